@@ -76,7 +76,7 @@ type c3Start struct {
 }
 
 type c3Op struct {
-	kind  byte // 'S' start, 'G' burst of starts, 'B' burst released through the token-table barrier, 'A' empty ack, 'R' response, 'F' foreign-token response, 'C' cancel, 'K' one block of a block-wise (Block2) response, 'W' responses arriving back to back
+	kind  byte // 'X' EXCHANGE_LIFETIME elapses (the cached replies expire), 'S' start, 'G' burst of starts, 'B' burst released through the token-table barrier, 'A' empty ack, 'R' response, 'F' foreign-token response, 'C' cancel, 'K' one block of a block-wise (Block2) response, 'W' responses arriving back to back
 	st    []c3Start
 	cid   int
 	rid   int
@@ -90,7 +90,7 @@ type c3Op struct {
 }
 
 type c3Script struct {
-	tr  string // u | ub | t | tb | up (udp, message pool on, slow empty-ACK writes, responses released at once)
+	tr  string // u | ub | t | tb | up (udp, message pool on, slow empty-ACK writes, responses released at once); on every udp set-up the message-ID layer is observed (c03dd.go)
 	ops []c3Op
 }
 
@@ -134,6 +134,8 @@ func (o c3Op) String() string {
 		return fmt.Sprintf("F%d:%s:%c:%d", o.rid, c3Hex(o.tok), o.rkind, o.slot)
 	case 'K':
 		return fmt.Sprintf("K%d:%d:%c:%d:%d/%d", o.rid, o.forc, o.rkind, o.slot, o.num, o.total)
+	case 'X':
+		return "X"
 	case 'W':
 		parts := make([]string, len(o.sub))
 		for i, x := range o.sub {
@@ -179,6 +181,7 @@ func parseC3Script(txt string) (c3Script, error) {
 			}
 		case 'A', 'C':
 			o.cid = atoi(body)
+		case 'X':
 		case 'R':
 			q := strings.Split(body, ":")
 			if len(q) != 4 {
@@ -253,6 +256,13 @@ type c3Run struct {
 	sc         c3Script
 	tcp, bw    bool
 	pooled     bool // message pool on (pool.New(1024, 2048)); "up": empty ACKs take c3AckWrite to write, callers release their response at once
+	dd         bool         // message-ID layer case (c03dd.go): emitted as DdCase, every received message with its type and message ID, cache hits and acknowledgements observed
+	spy        *c3CacheSpy  // dd: wrapper around the connection's response cache
+	spyField   *client.MessageCache
+	curMid     int          // dd: message ID of the message injected in the current event (-1: none)
+	evAcks     int          // dd: acknowledgements with that message ID the connection wrote during the event
+	lastDedup  bool         // dd: the bookkeeping took the last prepared message for a duplicate
+	lastKey    uint64       // dd: token key of the last prepared message
 	bwcase     bool // block-wise layer case (c03bw.go): emitted as BwCase, every event with what the connection wrote (block requests, 4.08)
 	single     bool // the script runs with GOMAXPROCS(1)
 	holdAll    bool // pooled, and the callers keep their responses until the script is over (they release them then)
@@ -299,6 +309,8 @@ func (r *c3Run) setup() {
 	r.pooled = strings.Contains(r.sc.tr[1:], "p") || strings.Contains(r.sc.tr[1:], "h")
 	r.holdAll = strings.Contains(r.sc.tr[1:], "h")
 	r.single = strings.HasSuffix(r.sc.tr, "1")
+	r.dd = !r.tcp // every datagram set-up; a script with block-wise events (K, W) is emitted as BwCase all the same
+	r.curMid = -1
 	r.sreg = map[uint64]int{}
 	r.have = map[uint64]int{}
 	r.written, r.framed = &atomic.Int64{}, &atomic.Int64{}
@@ -358,6 +370,9 @@ func (r *c3Run) setup() {
 	}
 	r.ucc = client.NewConnWithOpts(r.sess, &cfg, opts...)
 	r.conn = r.ucc
+	if r.dd {
+		r.installCacheSpy()
+	}
 }
 
 func (r *c3Run) setupTCP() {
@@ -661,6 +676,9 @@ func (r *c3Run) drainWire() {
 	for _, d := range r.sess.take() {
 		w := decodeWire(d)
 		if !w.Bad {
+			if r.curMid >= 0 && w.Typ == int(message.Acknowledgement) && w.MID == r.curMid {
+				r.evAcks++
+			}
 			note(codes.Code(w.Code), w.Tok, w.MID, w.Opts)
 		}
 	}
@@ -944,6 +962,17 @@ func (r *c3Run) waitExpected(rets *[]c3Ret) {
 }
 
 func (r *c3Run) item(kind string, rets []c3Ret, fell bool) {
+	if r.dd && !r.bwcase {
+		// message-ID layer case: the event with the cache hit and the acknowledgements written for the message
+		hit := false
+		if r.curMid >= 0 {
+			r.drainWire()
+			hit = r.spy.takeHit(r.curMid)
+		}
+		r.items = append(r.items, fmt.Sprintf("mkDev (%s) %s %s %s %d", kind, r.retsCoq(rets), coqBool(fell), coqBool(hit), r.evAcks))
+		r.curMid, r.evAcks = -1, 0
+		return
+	}
 	if !r.bwcase {
 		r.items = append(r.items, fmt.Sprintf("mkOev (%s) %s %s", kind, r.retsCoq(rets), coqBool(fell)))
 		return
@@ -1190,14 +1219,15 @@ func (r *c3Run) prepResp(o c3Op) (data []byte, msg string, ok bool) {
 		data = r.encode(typ, mid, tok, o.forc, o.rid)
 	}
 	r.lastFilled = -1
+	r.lastDedup, r.lastKey = dedup, h
 	if deliver {
-		if cid, ok := r.reg[h]; ok {
-			if del {
-				delete(r.reg, h)
-			}
-			r.calls[cid].filled = true
-			r.lastFilled = cid
-		}
+		r.markDelivered(h, del)
+	}
+	if r.dd && !r.bwcase {
+		r.curMid, r.evAcks = mid, 0
+		r.spy.takeHit(mid)
+		msg = fmt.Sprintf("%d %d %s %d%%nat %s %d%%nat %s", int(typ), mid, coqBool(del), o.rid, coqBytes(tok), r.emitID(o.forc), ackfor)
+		return data, msg, true
 	}
 	if r.bwcase {
 		msg = fmt.Sprintf("(%s, %s, %d%%nat, %s, %d%%nat, %s, %s)", coqBool(del), coqBool(dedup), o.rid, coqBytes(tok), r.emitID(o.forc), ackfor, blk)
@@ -1207,6 +1237,17 @@ func (r *c3Run) prepResp(o c3Op) (data []byte, msg string, ok bool) {
 	return data, msg, true
 }
 
+// markDelivered: bookkeeping for a message that is handed to the token table (which call has to come back)
+func (r *c3Run) markDelivered(h uint64, del bool) {
+	if cid, ok := r.reg[h]; ok {
+		if del {
+			delete(r.reg, h)
+		}
+		r.calls[cid].filled = true
+		r.lastFilled = cid
+	}
+}
+
 func (r *c3Run) doResp(o c3Op) {
 	data, msg, ok := r.prepResp(o)
 	if !ok {
@@ -1214,6 +1255,11 @@ func (r *c3Run) doResp(o c3Op) {
 	}
 	incBefore := r.evInc
 	r.inject(data, true)
+	if r.dd && !r.bwcase && r.lastDedup && !r.spy.peekHit(r.curMid) {
+		// the bookkeeping took the message for a duplicate but the response cache had no reply for its ID (or was
+		// not asked): the message was handled, so the call registered for its token has to come back
+		r.markDelivered(r.lastKey, true)
+	}
 	if r.bwcase && r.lastFilled >= 0 {
 		// a message the connection answered with 4.08 was not handed to anybody: no return to wait for
 		if r.syncWire(); r.evInc > incBefore {
@@ -1222,9 +1268,12 @@ func (r *c3Run) doResp(o c3Op) {
 	}
 	var rets []c3Ret
 	r.waitExpected(&rets)
-	if r.bwcase {
+	switch {
+	case r.bwcase:
 		r.item("BMsg "+msg, rets, r.takeFell())
-	} else {
+	case r.dd:
+		r.item("DMsg "+msg, rets, r.takeFell())
+	default:
 		r.item("KResp "+msg, rets, r.takeFell())
 	}
 }
@@ -1318,6 +1367,13 @@ func (r *c3Run) run() string {
 			r.doResp(o)
 		case 'W':
 			r.doBurst(o)
+		case 'X':
+			if r.dd && !r.bwcase {
+				r.lifetimeElapses()
+				var rets []c3Ret
+				r.waitExpected(&rets)
+				r.item("DLifetime", rets, r.takeFell())
+			}
 		case 'C':
 			c := r.calls[o.cid]
 			if c == nil || !c.onWire {
@@ -1359,12 +1415,17 @@ func (r *c3Run) run() string {
 	if r.bad != "" {
 		if r.bwcase {
 			r.items = append(r.items, fmt.Sprintf("mkBev (BCancel 0) [mkRet 0 9 [] 0 0] false [] 0 [] (* %s *)", r.bad))
+		} else if r.dd {
+			r.items = append(r.items, fmt.Sprintf("mkDev (DCancel 0) [mkRet 0 9 [] 0 0] false false 0 (* %s *)", r.bad))
 		} else {
 			r.items = append(r.items, fmt.Sprintf("mkOev (KCancel 0) [mkRet 0 9 [] 0 0] false (* %s *)", r.bad))
 		}
 	}
 	if r.bwcase {
 		return "BwCase [" + strings.Join(r.items, "; ") + "]"
+	}
+	if r.dd {
+		return "DdCase [" + strings.Join(r.items, "; ") + "]"
 	}
 	return "Case [" + strings.Join(r.items, "; ") + "]"
 }
@@ -1373,6 +1434,9 @@ func (r *c3Run) run() string {
 func (r *c3Run) kp() string {
 	if r.bwcase {
 		return "B"
+	}
+	if r.dd {
+		return "D"
 	}
 	return "K"
 }
@@ -1760,10 +1824,10 @@ func c3GenSeparate(rng *Rng, n int) c3Script {
 func runC03(a runArgs) error {
 	pool.VerifSetTracker(c3RelTracker{})
 	defer pool.VerifSetTracker(nil)
-	e := NewEmitter("C03", "Token.BwRun")
-	e.Preamble = "From GoCoap Require Import Token.Model Token.Spec Token.BwSpec."
+	e := NewEmitter("C03", "Token.DedupRun")
+	e.Preamble = "From GoCoap Require Import Token.Model Token.Spec Token.BwSpec Token.DedupModel Token.DedupSpec."
 	e.ShardSize = 120
-	e.Rule = "event scripts on a real udp/client.Conn (in-memory session) and tcp/client.Conn (net.Pipe), block-wise on/off: 1-8 calls (Do with caller-chosen tokens, Get/Post with library tokens; CON/NON) issued one by one or as a burst of goroutines released together, answered in a random order piggybacked / after an empty ACK / before the ACK / as separate CON or NON, with retransmitted and re-sent duplicates, foreign tokens, cancellations, equal tokens (second call while the first is outstanding, bursts with one token, re-use after completion), the CRC-64-colliding token pair, 14 pairs of similar but distinct tokens (differing by trailing / leading zero bytes, length, one byte, byte order; both outstanding, foreign response, late response of a cancelled call, mixed burst), bursts of 2-4 calls with one token released together at the token table (a goroutine holds the table's lock until every caller is queued inside LoadOrStore), and sequential separate-response exchanges on a pooled connection whose empty-ACK write takes 300 us while the caller releases its response at once. Block-wise layer (cases replayed on Token/BwModel.v): a Do whose response arrives in 2-4 Block2 blocks with a second Do with its token before / between the blocks, bystanders, two interleaved transfers, duplicated and stale blocks, cancellation mid-transfer, re-use of the token (ub, tb, ubh1, tbh1), and on connections with the message pool on a block-wise download followed by 3-5 calls with distinct tokens answered in another order or all back to back while the callers keep their responses (tbh1, tbh, tbp, ubh1, ubp); these cases also record the block numbers asked for, the 4.08 written and the messages the receive path released. Distinct = distinct script; non-trivial = at least two calls or one duplicate / foreign / cancel / equal-token / block / back-to-back event."
+	e.Rule = "event scripts on a real udp/client.Conn (in-memory session) and tcp/client.Conn (net.Pipe), block-wise on/off: 1-8 calls (Do with caller-chosen tokens, Get/Post with library tokens; CON/NON) issued one by one or as a burst of goroutines released together, answered in a random order piggybacked / after an empty ACK / before the ACK / as separate CON or NON, with retransmitted and re-sent duplicates, foreign tokens, cancellations, equal tokens (second call while the first is outstanding, bursts with one token, re-use after completion), the CRC-64-colliding token pair, 14 pairs of similar but distinct tokens (differing by trailing / leading zero bytes, length, one byte, byte order; both outstanding, foreign response, late response of a cancelled call, mixed burst), bursts of 2-4 calls with one token released together at the token table (a goroutine holds the table's lock until every caller is queued inside LoadOrStore), and sequential separate-response exchanges on a pooled connection whose empty-ACK write takes 300 us while the caller releases its response at once. Block-wise layer (cases replayed on Token/BwModel.v): a Do whose response arrives in 2-4 Block2 blocks with a second Do with its token before / between the blocks, bystanders, two interleaved transfers, duplicated and stale blocks, cancellation mid-transfer, re-use of the token (ub, tb, ubh1, tbh1), and on connections with the message pool on a block-wise download followed by 3-5 calls with distinct tokens answered in another order or all back to back while the callers keep their responses (tbh1, tbh, tbp, ubh1, ubp); these cases also record the block numbers asked for, the 4.08 written and the messages the receive path released. Message-ID layer (every datagram case is replayed on Token/DedupModel.v from the type and message ID of each received message; per message the response-cache hit and the acknowledgements written are recorded): a caller re-uses its token for the next request after the previous one completed, the peer answers with separate responses and sends an earlier response again with the same message ID while the later request is outstanding (acknowledged or not, CON/NON requests, the copy as CON or NON, two copies, three rounds, an earlier request given up, a copy while nobody waits, bystanders, a message ID re-used by the peer for another response within EXCHANGE_LIFETIME and after it has elapsed (event X), two NON copies). Distinct = distinct script; non-trivial = at least two calls or one duplicate / foreign / cancel / equal-token / block / back-to-back / lifetime event."
 	emit := func(sc c3Script, fam string) {
 		if c3Hangs >= 3 && a.only == "" {
 			return // enough hung cases to report; do not spend the watchdog time on every further case
@@ -1775,7 +1839,7 @@ func runC03(a runArgs) error {
 			if o.kind == 'S' || o.kind == 'G' || o.kind == 'B' {
 				ncalls += len(o.st)
 			}
-			if o.kind == 'F' || o.kind == 'C' || o.kind == 'K' || o.kind == 'W' {
+			if o.kind == 'F' || o.kind == 'C' || o.kind == 'K' || o.kind == 'W' || o.kind == 'X' {
 				nt = true
 			}
 		}
@@ -1805,7 +1869,19 @@ func runC03(a runArgs) error {
 	if a.tier == "thorough" {
 		nPerm, nEq, nBar, nSep = 600, 100, 40, 200
 	}
-	// The block-wise layer families come first (a failure found there is the one reported), on a stream of their own.
+	// The message-ID layer family comes first (a failure found there is the one reported), on a stream of its own:
+	// re-used tokens and retransmitted responses, udp and udp + block-wise (c03dd.go).
+	rng4 := NewRng(a.seed ^ 0xDED0DED0)
+	nReuse := 2
+	if a.tier == "thorough" {
+		nReuse = 30
+	}
+	for _, tr := range []string{"u", "ub"} {
+		for v := 0; v < 12*nReuse; v++ {
+			emit(c3GenReuse(rng4.Fork(), tr, v), "reuse")
+		}
+	}
+	// The block-wise layer families come next, on a stream of their own.
 	rng3 := NewRng(a.seed ^ 0xB10CB10C)
 	nDis, nPool := 2, 2
 	if a.tier == "thorough" {
